@@ -69,8 +69,10 @@ pub fn run(case: &Value, ctx: &Ctx) -> Outcome {
             }
             // the binary: text in, npy out
             if n > 0 {
-                let ints: Vec<f64> = (0..n).map(|i| (i % 97) as f64).collect();
-                let text = cli::write_text(&shape, &ints, 0);
+                // 3.25 carries a newline byte (0x0A) in its encoding: with more than 1 KiB of data after it a
+                // line-buffered stdout only shows the whole data section if every byte is really written
+                let ints: Vec<f64> = (0..n).map(|i| if i == 0 { 3.25 } else { (i % 97) as f64 }).collect();
+                let text = cli::write_text(&shape, &ints, 2);
                 let mut d2 = Vec::new();
                 for v in &ints {
                     d2.extend_from_slice(&v.to_le_bytes());
